@@ -1,0 +1,5 @@
+//go:build !verif
+
+package limitscanner
+
+func verifOptions(opt Options) Options { return opt }
